@@ -1,0 +1,47 @@
+//go:build verif
+
+// Package verifshim re-exports internal types for the external verification harness.
+// It is compiled only with the `verif` build tag and adds no behaviour.
+package verifshim
+
+import (
+	"sort"
+
+	"github.com/np-guard/netpol-analyzer/pkg/netpol/internal/common"
+)
+
+type (
+	ConnectionSet = common.ConnectionSet
+	PortSet       = common.PortSet
+	Connection    = common.Connection
+	PortRange     = common.PortRange
+)
+
+func MakeConnectionSet(all bool) *ConnectionSet { return common.MakeConnectionSet(all) }
+func MakePortSet(all bool) *PortSet             { return common.MakePortSet(all) }
+
+// NamedPortsOf returns protocol -> sorted named ports of a Connection backed by a *ConnectionSet (nil otherwise).
+func NamedPortsOf(c Connection) map[string][]string {
+	cs, ok := c.(*ConnectionSet)
+	if !ok || cs == nil {
+		return nil
+	}
+	res := map[string][]string{}
+	for proto, names := range cs.GetNamedPorts() {
+		s := append([]string{}, names...)
+		sort.Strings(s)
+		res[string(proto)] = s
+	}
+	return res
+}
+
+// AsConnectionSet returns the underlying *ConnectionSet of a Connection, if any.
+func AsConnectionSet(c Connection) *ConnectionSet {
+	cs, _ := c.(*ConnectionSet)
+	return cs
+}
+
+const (
+	IngressPodName      = common.IngressPodName
+	IngressPodNamespace = common.IngressPodNamespace
+)
